@@ -2714,6 +2714,8 @@ def hist_rejections(rnd, quick):
     h.add_class(a, Spec('A_LooseSub', 'A_Loose', assoc=True), 'create')
     h.set_matrix(['A_Bin', 'A_Loose', 'A_Mixed', 'A_LooseSub'], ['N_Base', 'N_Other', 'N_Sub'], ALL_ROLES[:6],
                  focus=('A_Loose', 'A_Bin', 'A_LooseSub', 'N_Base', 'N_Sub'), targets=('N_Base', 'N_Sub', 'A_Loose'))
+    if not quick:       # some 200 rounds: the lighter matrix of the random histories, on all sources
+        h.matrix[1] = tuple(x + y[1:3 * len(x)] for x, y in zip(h.matrix[0], h.matrix[1]))
     ax, ay, as_, ao = (h.add_node(a, 'N_Base', 'x'), h.add_node(a, 'N_Base', 'y', 'mof'), h.add_node(a, 'N_Sub', 's'),
                        h.add_node(a, 'N_Other', 'o'))
     bx, by = h.add_node(b, 'N_Base', 'x'), h.add_node(b, 'N_Base', 'y', 'add')
